@@ -200,6 +200,8 @@ pub fn alphabet(thorough: bool) -> Vec<Call> {
         Call::W(T::M(PARENT, Master::Full(vec![T::U(CHILD, 1)])), Opt::Default),
         Call::W(T::M(PARENT, Master::Full(vec![T::U(CHILD, 1), T::U(UINT, 2)])), Opt::Default),
         Call::W(T::M(PARENT, Master::Full(vec![T::U(CHILD, 1)])), Opt::Width(2)),
+        Call::W(T::M(PARENT, Master::Full(vec![T::U(UINT, 2)])), Opt::Default),                                  // invalid FIRST child
+        Call::W(T::M(PARENT, Master::Full(vec![T::U(CHILD, 1), T::M(PARENT, Master::End)])), Opt::Default),     // a child that ends the Full master itself
         Call::W(T::Raw(0x4321, vec![1, 2]), Opt::Default), Call::W(T::Raw(0x11, vec![1]), Opt::Default),
         Call::W(T::U(UINT, 5), Opt::Unknown),
         Call::W(T::B(VOID, vec![]), Opt::Default),
@@ -409,6 +411,15 @@ pub fn unit_payload() -> Report {
         let (items, err) = read_back(&bytes, false);
         let same = err.is_none() && items.len() == 3 && rf::tag_eq(&items[1], &t);
         rep.clause("C01/C16: the element reads back (strict iterator) with the identical value", same, || format!("{} bytes={} got=[{}] err={:?}", rf::show(&t), rf::hex(&bytes), items.iter().map(rf::show).collect::<Vec<_>>().join(","), err));
+        // C02: read -> re-write -> read is a fixpoint on boundary values
+        if err.is_none() {
+            let mut w2 = TagWriter::new(ScriptDest::default());
+            let mut ok2 = true;
+            for it in &items { if w2.write(it).is_err() { ok2 = false; } }
+            let (items2, err2) = read_back(&w2.dest.data, false);
+            let fix = ok2 && err2.is_none() && items2.len() == items.len() && items2.iter().zip(items.iter()).all(|(a, b)| rf::tag_eq(a, b));
+            rep.clause("C02: re-writing the tags read from a document and reading again yields the identical values (boundary lattice)", fix, || format!("{} first-read=[{}] rewritten={} second-read=[{}] err={:?}", rf::show(&t), items.iter().map(rf::show).collect::<Vec<_>>().join(","), rf::hex(&w2.dest.data), items2.iter().map(rf::show).collect::<Vec<_>>().join(","), err2));
+        }
     };
     for v in us { one(T::U(bs::UINT, v), &mut rep); }
     for v in is { one(T::I(bs::INT, v), &mut rep); }
